@@ -31,7 +31,7 @@ def one(sid):
         m = re.match(r'OK property=(C\d+)', line)
         if m:
             res.setdefault(m.group(1), []).append('OK')
-        m = re.match(r'UNDECIDED (C\d+) \[(\w+)\] (.*)', line)
+        m = re.match(r'UNDECIDED (?:property=)?(C\d+):? \[(\w+)\] (.*)', line)
         if m:
             res.setdefault(m.group(1), []).append('UNDECIDED[' + m.group(2) + '] ' + m.group(3)[:140])
     shutil.rmtree(d, ignore_errors=True)
